@@ -116,6 +116,14 @@ CHECKS = {
             "clone / clone_from / a panic injected in the clone of the k-th tracked field for every k, then mutation / drop of either record "
             "and inspection of the other; previous contents of a clone-assignment target destroyed exactly once.",
             "same as C04", TRACE_TECH % ("Record.tla", "RecordTrace.tla"), "7 C16"),
+    "C11": ("static", "exploration",
+            "The case matrix (type x introduced first / later x perturbation of recorded size, alignment, may-be-uninitialised flag) is "
+            "enumerated completely by TLC (spec/MCCompile.tla); every case is built through the real builder (add_datum_override), generated "
+            "by the real generator, compiled by rustc as its own target; TLC validates the verdicts against Codegen!CompileVerdict "
+            "(spec/CompileTrace.tla), each perturbed case paired with its unperturbed twin.",
+            "finite matrix over the lab palette, enumerated completely; x86_64 only (foreign-target tables emulated by perturbation)",
+            "TLC-enumerated case matrix (spec/Codegen.tla, MCCompile.tla) + rustc verdicts on generated modules validated by TLC (spec/CompileTrace.tla)",
+            "7 C11"),
 }
 
 PENDING_REASON = "check not built yet (framework under construction); see DESIGN.md section 7"
@@ -169,6 +177,8 @@ def main():
              "serves_properties": ["C03", "C04", "C05", "C06", "C07", "C13", "C14", "C15", "C16"],
              "kind_free_text": "TLC model checking of spec/MCRecord.tla + real builder / generate() / rustc on lab definitions "
                                "(harness/genlab_gen, genlab_run, genlab_compile) + TLC trace validation (spec/RecordTrace.tla)"},
+            {"name": "static", "path": "tools/static_pipe.py", "serves_properties": ["C11"],
+             "kind_free_text": "TLC case enumeration + rustc compile verdicts on generated modules (harness/genlab_probe) + TLC validation"},
         ],
         "checks": checks,
         "notes": "All checks share cached pipeline stages keyed by the content hash of /repo and /verif sources, tier and seed "
